@@ -1114,7 +1114,10 @@ fn run_script(input: &str) -> (Outcome, String) {
             let mut chg = vec![];
             for (kind, id) in &touched {
                 let n = w.sym_of(&id.to_string());
-                let abs = w.abs_checked(*kind, id, "stale-after-fetch");
+                // an object changed behind the cache's back earlier and not named by a reference update of
+                // this fetch is still legitimately out of date: not judged
+                let dirty = if *kind == Kind::Patch { w.dirty_p.contains(&n) } else { w.dirty_i.contains(&n) };
+                let abs = if dirty { w.abs(*kind, id) } else { w.abs_checked(*kind, id, "stale-after-fetch") };
                 chg.push(format!("{}{n}={abs}", if *kind == Kind::Patch { 'p' } else { 'i' }));
             }
             let chg = if chg.is_empty() { "-".to_string() } else { chg.join("&") };
